@@ -119,8 +119,12 @@ class GridDistortion:
         data['yr'] = np.reshape(self.optic.surface_group.y[-1, :],
                                 (self.num_points, self.num_points))
 
-        # optical system flips x, so must correct this
-        data['xp'] = np.flip(xp)
+        # angular fields: Hx and Hy have opposite sign conventions, so x must
+        # be flipped; object heights share one convention
+        if self.optic.field_type == 'object_height':
+            data['xp'] = xp
+        else:
+            data['xp'] = np.flip(xp)
         data['yp'] = yp
 
         # Find max distortion
